@@ -410,6 +410,7 @@ def c01(run, scratch):
     retrace_mc(run, scratch, "entries1", "frame", workers=4)
     retrace_mc(run, scratch, "entries_thorough" if t else "entries_quick", "frame", workers=14 if t else 10)
     retrace_mc(run, scratch, "files_thorough" if t else "files_quick", "frame", workers=14 if t else 10)
+    retrace_mc(run, scratch, "ranges_thorough" if t else "ranges_quick", "frame", workers=14 if t else 10)
     retrace_trace(run, scratch, "Trace_Retrace_frame", "frame", 200 if t else 40, 300 if t else 120, SMALL_CORPUS,
                   workers=14 if t else 10)
     frameiter_trace(run, scratch, 60 if t else 15, 80, SMALL_CORPUS[:2])
@@ -433,6 +434,7 @@ def c03(run, scratch):
                "builder step machine (inline lookahead, per-class dedup set, offsets) = declarative index, all record sequences within bound")
     retrace_mc(run, scratch, "blocks_thorough" if t else "blocks_quick", "params", workers=14 if t else 10)
     retrace_mc(run, scratch, "records_thorough" if t else "records_quick", "params", workers=14 if t else 10)
+    retrace_mc(run, scratch, "ranges_thorough" if t else "ranges_quick", "params", workers=14 if t else 10)
     retrace_trace(run, scratch, "Trace_Retrace_params", "params", 200 if t else 40, 300 if t else 120, SMALL_CORPUS,
                   workers=14 if t else 10)
     run.exhaustive = False
@@ -460,8 +462,8 @@ def c02(run, scratch):
     expect_counterexample(run, scratch, "MC_Builder", "MC_Builder_pinned_header.cfg", "the ignored valueless sourceFile header")
     mc_builder(run, scratch, "mapper", "mapper variant (no parameter index) of the builder machine = declarative index")
     mc_builder(run, scratch, "cache" if t else "cache_quick", "cache-writer variant of the builder machine = declarative index")
-    for cfg in (["blocks_thorough", "files_thorough", "records_thorough", "names_quick", "entries_quick", "ambig_thorough"] if t else
-                ["blocks_quick", "files_quick", "names_quick", "ambig_quick"]):
+    for cfg in (["blocks_thorough", "files_thorough", "records_thorough", "names_quick", "entries_quick", "ambig_thorough", "ranges_thorough"] if t else
+                ["blocks_quick", "files_quick", "names_quick", "ambig_quick", "ranges_quick"]):
         retrace_mc(run, scratch, cfg, "all", workers=14 if t else 10)
     retrace_trace(run, scratch, "Trace_Retrace_all", "all", 300 if t else 60, 300 if t else 150, SMALL_CORPUS,
                   workers=14 if t else 10)
